@@ -110,3 +110,13 @@ Definition dunder_name (d : dunder) : string :=
   match d with Plain o => ("__" ++ base o ++ "__")%string | Refl o => ("__r" ++ base o ++ "__")%string end.
 Definition bop_symbol (o : bop) : string :=
   match o with Add => "+" | Sub => "-" | Mul => "*" | TrueDiv => "/" | FloorDiv => "//" | Mod => "%" | Pow => "**" end%string.
+
+(* ---- csv._infer_type ------------------------------------------------------------------------
+   what one cell text becomes: None, int(t), float(t) or the text t itself.  The generated function
+   takes the text type T and, as parameters, txt_empty (t == ''), txt_strip (t.strip()), int_ok /
+   float_ok (int(t) / float(t) does not raise ValueError). *)
+Inductive cellres (T : Type) := CNone | CInt (t : T) | CFloat (t : T) | CStr (t : T).
+Arguments CNone {T}.
+Arguments CInt {T} t.
+Arguments CFloat {T} t.
+Arguments CStr {T} t.
